@@ -35,6 +35,9 @@ func (p *Path) valueHasSecret(v Value, seenT map[*Term]bool, seenP map[*Value]bo
 	case *Term:
 		return termHasSecret(x, seenT)
 	case Str:
+		if x.Secret {
+			return true
+		}
 		for _, b := range x.Sym {
 			if termHasSecret(b, seenT) {
 				return true
@@ -112,10 +115,47 @@ func (p *Path) valueHasSecret(v Value, seenT map[*Term]bool, seenP map[*Value]bo
 				}
 			}
 		case *ErrObj:
-			return p.valueHasSecret(d.Msg, seenT, seenP, depth+1)
+			if p.valueHasSecret(d.Msg, seenT, seenP, depth+1) {
+				return true
+			}
+			for _, w := range d.Wrapped {
+				if p.valueHasSecret(w, seenT, seenP, depth+1) {
+					return true
+				}
+			}
+		case *jnode:
+			return p.jnodeHasSecret(d, seenT, seenP, depth+1)
 		}
 	}
 	return false
+}
+
+func (p *Path) jnodeHasSecret(n *jnode, seenT map[*Term]bool, seenP map[*Value]bool, depth int) bool {
+	if n == nil || depth > 40 {
+		return false
+	}
+	if n.t != nil && termHasSecret(n.t, seenT) {
+		return true
+	}
+	if p.valueHasSecret(n.s, seenT, seenP, depth+1) {
+		return true
+	}
+	for _, b := range n.bs {
+		if termHasSecret(b, seenT) {
+			return true
+		}
+	}
+	for _, e := range n.elems {
+		if p.jnodeHasSecret(e, seenT, seenP, depth+1) {
+			return true
+		}
+	}
+	for _, e := range n.vals {
+		if p.jnodeHasSecret(e, seenT, seenP, depth+1) {
+			return true
+		}
+	}
+	return n.opaque != nil && p.valueHasSecret(n.opaque, seenT, seenP, depth+1)
 }
 
 func tryBytes(s Slice) ([]*Term, bool) {
